@@ -9,6 +9,25 @@ BASE_ASSUMPTIONS = [
 ]
 
 CHECKS = {
+    "C04": {
+        "quick": [
+            {"pkg": "v2", "entries": ["VerifC04Pair"], "params": {"N": 1}},
+        ],
+        "thorough": [
+            {"pkg": "v2", "entries": ["VerifC04Pair"], "params": {"N": 2}},
+        ],
+        "covers": ["c04.pair.list", "c04.pair.set", "c04.pair.multiset", "c04.pair.setkeys"],
+        "outside": "arrays longer than N, strings other than 0/1/8 bytes, FNV collisions",
+    },
+    "C05": {
+        "quick": [
+            {"pkg": "v2", "entries": ["VerifC05Flat"], "params": {"N": 2}},
+        ],
+        "thorough": [
+            {"pkg": "v2", "entries": ["VerifC05Flat"], "params": {"N": 3}},
+        ],
+        "covers": ["c05.flat.none", "c05.flat.set", "c05.flat.multiset", "c05.flat.merge"],
+    },
     "C01": {
         "quick": [
             {"pkg": "v2", "entries": ["VerifC01Flat"], "params": {"N": 2}},
@@ -32,7 +51,7 @@ DEFAULT_TECHNIQUE = "bounded symbolic execution of the Go SSA with SMT (z3/cvc5)
 
 _NA_PENDING = "check not built yet in this session (engine exists; harness pending)"
 NOT_APPLICABLE = {
-    "C02": _NA_PENDING, "C03": _NA_PENDING, "C04": _NA_PENDING, "C05": _NA_PENDING, "C06": _NA_PENDING, "C07": _NA_PENDING,
+    "C02": _NA_PENDING, "C03": _NA_PENDING, "C06": _NA_PENDING, "C07": _NA_PENDING,
     "C08": _NA_PENDING, "C09": _NA_PENDING, "C10": _NA_PENDING, "C11": _NA_PENDING, "C12": _NA_PENDING, "C13": _NA_PENDING,
     "C14": _NA_PENDING, "C15": _NA_PENDING, "C17": _NA_PENDING, "C18": _NA_PENDING,
     "C16": ("quantifies over the characters of strings as they pass through yaml.v2's scanner/resolver/emitter and encoding/json "
